@@ -11,6 +11,7 @@ import (
 	"context"
 	"encoding/json"
 	"fmt"
+	"sort"
 
 	"github.com/anyproto/any-sync/commonspace/object/acl/list"
 	"github.com/anyproto/any-sync/commonspace/object/acl/recordverifier"
@@ -145,6 +146,36 @@ func scenarios() []scenario {
 			aclh.Rec{Author: 1, N: 11, Cs: []aclh.C{{K: "rk", Rk: rk([]int{1, 2, 3, 4, 5, 6, 11}, []int{102})}}})},
 		{"two-open-invites", app(aclh.Rec{Author: 2, N: 10, Cs: []aclh.C{{K: "invite", A: 104, T: 1, P: 4, Enc: true}, {K: "invite", A: 105, T: 0}}},
 			aclh.Rec{Author: 9, N: 11, Cs: []aclh.C{{K: "ijoin", A: 9, R: 4, P: 4, SK: 102, SM: 9, Meta: true, Enc: true}}})},
+		// ---- states in which an account's STATUS and its PERMISSIONS diverge: a join request (record 6, account 8)
+		// left pending across a direct AccountsAdd (and an ownership transfer) is declined by a manager / cancelled by
+		// its author afterwards, so a member is Declined / Canceled; a permission change to None leaves an Active
+		// account without permissions; a remove request (record 7, account 11) survives a re-admission.
+		{"declined-member-writer", app(aclh.Rec{Author: 2, N: 10, Cs: []aclh.C{{K: "add", L: []aclh.AP{{8, 3}}}}},
+			aclh.Rec{Author: 3, N: 11, Cs: []aclh.C{{K: "decline", R: 6}}})},
+		{"declined-member-guest", app(aclh.Rec{Author: 2, N: 10, Cs: []aclh.C{{K: "add", L: []aclh.AP{{8, 5}}}}},
+			aclh.Rec{Author: 2, N: 11, Cs: []aclh.C{{K: "decline", R: 6}}})},
+		{"declined-member-admin", app(aclh.Rec{Author: 1, N: 10, Cs: []aclh.C{{K: "add", L: []aclh.AP{{8, 2}}}}},
+			aclh.Rec{Author: 2, N: 11, Cs: []aclh.C{{K: "decline", R: 6}}})},
+		{"canceled-member-admin", app(aclh.Rec{Author: 1, N: 10, Cs: []aclh.C{{K: "add", L: []aclh.AP{{8, 2}}}}},
+			aclh.Rec{Author: 8, N: 11, Cs: []aclh.C{{K: "cancel", R: 6}}})},
+		{"canceled-member-reader", app(aclh.Rec{Author: 3, N: 10, Cs: []aclh.C{{K: "add", L: []aclh.AP{{8, 4}}}}},
+			aclh.Rec{Author: 8, N: 11, Cs: []aclh.C{{K: "cancel", R: 6}}})},
+		{"declined-owner", app(aclh.Rec{Author: 2, N: 10, Cs: []aclh.C{{K: "add", L: []aclh.AP{{8, 3}}}}},
+			aclh.Rec{Author: 1, N: 11, Cs: []aclh.C{{K: "owner", A: 8, P: 2}}},
+			aclh.Rec{Author: 1, N: 12, Cs: []aclh.C{{K: "decline", R: 6}}})},
+		{"canceled-owner", app(aclh.Rec{Author: 2, N: 10, Cs: []aclh.C{{K: "add", L: []aclh.AP{{8, 3}}}}},
+			aclh.Rec{Author: 1, N: 11, Cs: []aclh.C{{K: "owner", A: 8, P: 3}}},
+			aclh.Rec{Author: 8, N: 12, Cs: []aclh.C{{K: "cancel", R: 6}}})},
+		{"active-no-perm", app(aclh.Rec{Author: 1, N: 10, Cs: []aclh.C{{K: "perm", A: 4, P: 0}}},
+			aclh.Rec{Author: 2, N: 11, Cs: []aclh.C{{K: "perms", L: []aclh.AP{{5, 0}}}}})},
+		{"stale-remove-readded", app(aclh.Rec{Author: 1, N: 10, Cs: []aclh.C{{K: "perm", A: 11, P: 0}}},
+			aclh.Rec{Author: 2, N: 11, Cs: []aclh.C{{K: "add", L: []aclh.AP{{11, 3}}}}})},
+		{"stale-remove-owner", app(aclh.Rec{Author: 1, N: 10, Cs: []aclh.C{{K: "perm", A: 11, P: 0}}},
+			aclh.Rec{Author: 2, N: 11, Cs: []aclh.C{{K: "add", L: []aclh.AP{{11, 3}}}}},
+			aclh.Rec{Author: 1, N: 12, Cs: []aclh.C{{K: "owner", A: 11, P: 2}}})},
+		{"declined-then-removing", app(aclh.Rec{Author: 2, N: 10, Cs: []aclh.C{{K: "add", L: []aclh.AP{{8, 3}}}}},
+			aclh.Rec{Author: 3, N: 11, Cs: []aclh.C{{K: "decline", R: 6}}},
+			aclh.Rec{Author: 8, N: 12, Cs: []aclh.C{{K: "rremove"}}})},
 	}
 }
 
@@ -376,6 +407,125 @@ func directed(s aclh.State) []aclh.Rec {
 	return out
 }
 
+// divergent: accounts of s whose status and permissions (or pending request) do not tell the same story: a member
+// that is not Active/Removing (Declined, Canceled, Joining, Removed, None), an Active/Removing account without
+// permissions, a pending join request of a member, a pending remove request of an account that is not Removing.
+func divergent(s aclh.State) []int {
+	var out []int
+	pend := map[int]int{}
+	for _, q := range s.Reqs {
+		pend[q.Ident] = q.Type
+	}
+	for _, a := range s.Accs {
+		member := a.Perm != 0
+		live := a.Status == 2 || a.Status == 5
+		ty, has := pend[a.Id]
+		switch {
+		case member != live,
+			has && ty == 1 && (member || a.Status != 1),
+			has && ty == 0 && a.Status != 5,
+			!has && (a.Status == 1 || a.Status == 5):
+			out = append(out, a.Id)
+		}
+	}
+	return out
+}
+
+func firstWith(s aclh.State, perm int, not int) int {
+	for _, a := range s.Accs {
+		if a.Perm == perm && a.Id != not {
+			return a.Id
+		}
+	}
+	return 0
+}
+
+// alphabet: the systematic single-content alphabet around every account of the state (and one outsider), by an
+// owner / admin / writer author and by the account itself, plus the two-content records that resolve a request
+// and then touch its requester.  only != nil restricts the targets.
+func alphabet(s aclh.State, only []int) []aclh.Rec {
+	var out []aclh.Rec
+	n := 6000
+	add := func(author int, cs ...aclh.C) {
+		if author == 0 {
+			return
+		}
+		n++
+		out = append(out, aclh.Rec{Author: author, N: n, Cs: cs})
+	}
+	owner := firstWith(s, 1, 0)
+	admin := firstWith(s, 2, 0)
+	writer := firstWith(s, 3, 0)
+	targets := []int{13}
+	for _, a := range s.Accs {
+		targets = append(targets, a.Id)
+	}
+	if only != nil {
+		targets = only
+	}
+	for _, t := range targets {
+		adm := admin
+		if adm == t {
+			if o := firstWith(s, 2, t); o != 0 {
+				adm = o
+			}
+		}
+		for _, author := range []int{owner, adm, writer} {
+			if author == t && author != adm {
+				continue
+			}
+			for _, p := range []int{2, 3, 4, 5} {
+				add(author, aclh.C{K: "add", L: []aclh.AP{{A: t, P: p}}})
+			}
+		}
+		for _, author := range []int{owner, adm} {
+			for _, p := range []int{0, 4, 5} {
+				add(author, aclh.C{K: "perm", A: t, P: p})
+			}
+			add(author, aclh.C{K: "perms", L: []aclh.AP{{A: t, P: 3}, {A: t, P: 4}}})
+			add(author, aclh.C{K: "owner", A: t, P: 3})
+		}
+		// the account acting for itself
+		add(t, aclh.C{K: "rremove"})
+		add(t, aclh.C{K: "add", L: []aclh.AP{{A: t, P: 3}}})
+		add(t, aclh.C{K: "perm", A: t, P: 3})
+		for _, i := range s.Invs {
+			if i.Type == 0 {
+				add(t, aclh.C{K: "rjoin", A: t, R: i.Rid, SK: i.Key, SM: t, Meta: true})
+			} else {
+				add(t, aclh.C{K: "ijoin", A: t, R: i.Rid, P: 0, SK: i.Key, SM: t, Meta: true, Enc: true})
+			}
+		}
+		for _, q := range s.Reqs {
+			if q.Ident != t {
+				add(t, aclh.C{K: "cancel", R: q.Rid})
+				add(t, aclh.C{K: "accept", A: q.Ident, R: q.Rid, P: 4})
+				continue
+			}
+			// resolve the request of t, then touch t in the same record
+			for _, author := range []int{owner, adm} {
+				for _, p := range []int{2, 4} {
+					add(author, aclh.C{K: "decline", R: q.Rid}, aclh.C{K: "add", L: []aclh.AP{{A: t, P: p}}})
+				}
+				add(author, aclh.C{K: "decline", R: q.Rid}, aclh.C{K: "perm", A: t, P: 4})
+				add(author, aclh.C{K: "decline", R: q.Rid}, aclh.C{K: "accept", A: t, R: q.Rid, P: 4})
+				add(author, aclh.C{K: "add", L: []aclh.AP{{A: t, P: 4}}}, aclh.C{K: "accept", A: t, R: q.Rid, P: 4})
+				add(author, aclh.C{K: "add", L: []aclh.AP{{A: t, P: 4}}}, aclh.C{K: "decline", R: q.Rid}, aclh.C{K: "add", L: []aclh.AP{{A: t, P: 3}}})
+			}
+			add(t, aclh.C{K: "cancel", R: q.Rid}, aclh.C{K: "rremove"})
+			add(t, aclh.C{K: "cancel", R: q.Rid}, aclh.C{K: "perm", A: t, P: 3})
+			for _, i := range s.Invs {
+				if i.Type == 0 {
+					add(t, aclh.C{K: "cancel", R: q.Rid}, aclh.C{K: "rjoin", A: t, R: i.Rid, SK: i.Key, SM: t, Meta: true})
+				} else {
+					add(t, aclh.C{K: "cancel", R: q.Rid}, aclh.C{K: "ijoin", A: t, R: i.Rid, P: 0, SK: i.Key, SM: t, Meta: true, Enc: true})
+				}
+			}
+		}
+	}
+	return out
+}
+
 // ---------------------------------------------------------------- one trial
 
 type runner struct {
@@ -478,6 +628,101 @@ func (rn *runner) trial(e *Env, sc string, setup []aclh.Rec, rec aclh.Rec, mode 
 	return accepted
 }
 
+func kind0(rec aclh.Rec) string {
+	if len(rec.Cs) == 0 {
+		return "nocontent"
+	}
+	if len(rec.Cs) > 1 {
+		return rec.Cs[0].K + "+"
+	}
+	return rec.Cs[0].K
+}
+
+// deepWalk: one history of 4-8 accepted records on a live list.
+func (rn *runner) deepWalk(e *Env, sc scenario, r *vlib.Rand, n int, maxSweeps int) int {
+	w := rn.w
+	setup := append([]aclh.Rec(nil), sc.Setup...)
+	depth := 4 + r.Intn(5)
+	swept := map[string]bool{}
+	accepted := 0
+	for attempts := 0; accepted < depth && attempts < depth*3; attempts++ {
+		s := e.W.Dump(e.L.AclState())
+		// candidates by kind of their first content
+		byKind := map[string][]aclh.Rec{}
+		for _, rec := range append(directed(s), alphabet(s, nil)...) {
+			k := rec.Cs[0].K
+			if len(rec.Cs) > 1 {
+				k += "+"
+			}
+			byKind[k] = append(byKind[k], rec)
+		}
+		var ks []string
+		for k := range byKind {
+			ks = append(ks, k)
+		}
+		sort.Strings(ks)
+		var rec aclh.Rec
+		found := false
+		for try := 0; try < 10 && !found; try++ {
+			if r.Chance(1, 3) {
+				n++
+				rec = gen{r: r.Fork(uint64(n)), s: s}.record(n)
+			} else {
+				c := byKind[ks[r.Intn(len(ks))]]
+				rec = c[r.Intn(len(c))]
+			}
+			if r.Chance(1, 10) {
+				break // a (probably) rejected record inside the history
+			}
+			if st, err, p := e.validate(e.L, rec.Author, rec.Cs); p == nil && err == nil && st != nil {
+				found = true
+			}
+		}
+		n++
+		rec.N = n
+		if rn.trial(e, sc.Name+"+deep", setup, rec, "walk") {
+			setup = append(setup, rec)
+			accepted++
+			w.Stat("deep_accepted_" + kind0(rec))
+		}
+		w.Stat("gen_deep")
+		// accounts whose divergence is new (or changed) with this record: the alphabet aimed at them
+		s2 := e.W.Dump(e.L.AclState())
+		was := map[int][2]int{}
+		for _, a := range s.Accs {
+			was[a.Id] = [2]int{a.Perm, a.Status}
+		}
+		wasDiv := map[int]bool{}
+		for _, a := range divergent(s) {
+			wasDiv[a] = true
+		}
+		var fresh []int
+		for _, a := range divergent(s2) {
+			for _, x := range s2.Accs {
+				if x.Id == a && (!wasDiv[a] || was[a] != [2]int{x.Perm, x.Status}) {
+					fresh = append(fresh, a)
+				}
+			}
+		}
+		if len(fresh) > 0 && len(swept) < maxSweeps {
+			swept[s2.Key()] = true
+			w.Stat("deep_state_with_new_status_permission_divergence")
+			for _, arec := range alphabet(s2, fresh) {
+				n++
+				arec.N = n
+				mode := "validate"
+				if r.Chance(1, 8) {
+					mode = "add"
+				}
+				rn.trial(e, sc.Name+"+deep", setup, arec, mode)
+				w.Stat("gen_deep_sweep")
+			}
+		}
+	}
+	w.Stat(fmt.Sprintf("deep_history_len_%d", accepted))
+	return n
+}
+
 // ---------------------------------------------------------------- main
 
 func main() {
@@ -509,15 +754,19 @@ func main() {
 	}
 
 	r := vlib.NewRand(o.Seed)
-	perScenario := 110
+	perScenario := 70
 	walks, walkLen := 20, 12
+	deepPerScenario, maxSweeps := 3, 2
 	if o.Tier == "thorough" {
-		perScenario, walks, walkLen = 4000, 400, 16
+		perScenario, walks, walkLen, deepPerScenario, maxSweeps = 2500, 400, 16, 40, 8
 	}
 	perScenario *= o.Budget
 	walks *= o.Budget
+	deepPerScenario *= o.Budget
+	full := o.Tier == "thorough" || o.Budget > 1
 	n := 10000
-	for si, sc := range scenarios() {
+	scs := scenarios()
+	for si, sc := range scs {
 		e, err := buildEnv(sc.Setup)
 		if err != nil {
 			// a scenario that cannot be built is itself a deviation (the model accepts these setups)
@@ -525,10 +774,14 @@ func main() {
 			continue
 		}
 		s := e.W.Dump(e.L.AclState())
+		div := divergent(s)
+		if len(div) > 0 {
+			w.Stat("scenario_with_status_permission_divergence")
+		}
 		for di, rec := range directed(s) {
-			// quick tier: every escalation attempt through accept / ownership change, one third of the rest
+			// quick tier: every escalation attempt through accept / ownership change, one quarter of the rest
 			essential := len(rec.Cs) > 0 && (rec.Cs[0].K == "accept" || rec.Cs[0].K == "owner")
-			if o.Tier != "thorough" && o.Budget == 1 && !essential && di%3 != si%3 {
+			if !full && !essential && di%4 != si%4 {
 				continue
 			}
 			mode := "validate"
@@ -537,6 +790,32 @@ func main() {
 			}
 			rn.trial(e, sc.Name, sc.Setup, rec, mode)
 			w.Stat("gen_directed")
+		}
+		// the systematic alphabet: everything aimed at the divergent accounts, a sixth of the rest (quick tier)
+		isDiv := map[int]bool{}
+		for _, a := range div {
+			isDiv[a] = true
+		}
+		for ai, rec := range alphabet(s, nil) {
+			aimed := isDiv[rec.Author]
+			for _, c := range rec.Cs {
+				aimed = aimed || isDiv[c.A]
+				for _, ap := range c.L {
+					aimed = aimed || isDiv[ap.A]
+				}
+			}
+			if !full && !aimed && ai%6 != si%6 {
+				continue
+			}
+			mode := "validate"
+			if r.Chance(1, 6) {
+				mode = "add"
+			}
+			rn.trial(e, sc.Name, sc.Setup, rec, mode)
+			w.Stat("gen_alphabet")
+			if aimed {
+				w.Stat("gen_alphabet_aimed_at_divergent_account")
+			}
 		}
 		for k := 0; k < perScenario; k++ {
 			n++
@@ -551,7 +830,6 @@ func main() {
 		}
 	}
 	// random walks on a live list (AddRawRecord path), biased towards accepted records
-	scs := scenarios()
 	for k := 0; k < walks; k++ {
 		sc := scs[r.Intn(3)] // root, base, admin-invite
 		e, err := buildEnv(sc.Setup)
@@ -579,10 +857,28 @@ func main() {
 			w.Stat("gen_walk")
 		}
 	}
+	// deep histories: from EVERY scenario, sequences of 4-8 accepted records over the whole hand-signed alphabet
+	// (kind first, then a candidate of that kind that the list accepts; every attempt is a case), and in every state
+	// reached in which status and permissions diverge, the alphabet aimed at the divergent accounts.
+	for _, sc := range scs {
+		for k := 0; k < deepPerScenario; k++ {
+			e, err := buildEnv(sc.Setup)
+			if err != nil {
+				continue
+			}
+			n = rn.deepWalk(e, sc, r.Fork(uint64(n)+77), n, maxSweeps)
+		}
+	}
 	w.Finish("records hand-assembled over the alphabet {17 content kinds} x {13 authors incl. outsiders} x targets x permissions 0..5,7 x "+
-		"existing/bogus/wrong-kind invite and request ids, single and batched (2-4 contents), from 12 representative reachable states "+
+		"existing/bogus/wrong-kind invite and request ids, single and batched (2-4 contents), from 24 representative reachable states "+
 		"(owner, 2 admins, writer, reader, guest, removed, pending join, pending remove, declined, open invites, transferred ownership, "+
-		"stale requests, rotated key) plus directed escalation attempts plus random walks through AddRawRecord; a case is non-trivial if the "+
+		"stale requests, rotated key; 12 states in which status and permissions diverge: members / the owner Declined or Canceled through a "+
+		"stale join request, Active accounts without permissions, stale remove requests across re-admission and ownership transfer): directed "+
+		"escalation attempts + the systematic alphabet around every account (add / perm / perms / owner by owner, admin, writer; self "+
+		"rremove / add / perm / rjoin / ijoin / cancel / accept; request resolution followed by touching the requester in the same record) + "+
+		"random records; random walks through AddRawRecord; deep histories of 4-8 accepted records from every scenario with the alphabet "+
+		"re-applied in every reached state with a status/permission divergence; observed state = per-account permission, STATUS, key record, "+
+		"history, invites, request records, pending requests, keys, options; a case is non-trivial if the "+
 		"state has >= 3 accounts and the record >= 1 content; distinct by full case term",
 		rn.samples, nil)
 }
